@@ -58,6 +58,7 @@ def run(ctx, rep, tier):
     rep.rule("QF", "no mix of raw and placed geometry in the free-space helpers and row consumers", 4)
     rep.rule("QA", "no cross-axis comparison / subtraction / min-max in the geometry helpers", 10)
     rep.rule("ROLE", "Rectangle / Row / boost rectangle constructor arguments have the axis and bound of their position", 10)
+    rep.rule("LN", "the per-cell vectors computeRows reads have one entry per cell: their setters check the length before storing", 5)
     rep.rule("PV", "builders take rows from computeRows(); raw rows_ read only by listed functions", 5)
     check_g12(ctx, rep)
     check_g13(ctx, rep)
@@ -74,6 +75,8 @@ def run(ctx, rep, tier):
                 rep.holds("QA", f.decl, f, "%s is axis-consistent" % f.short)
     check_roles(ctx, rep)
     check_pv(ctx, rep)
+    from .c19 import check_g17
+    check_g17(ctx, rep, "LN", fields=("cellIsFixed_", "cellIsObstruction_", "cellX_", "cellY_", "cellWidth_", "cellHeight_", "cellOrientation_"))
 
 
 def check_g12(ctx, rep):
@@ -379,23 +382,27 @@ def check_roles(ctx, rep):
                 rep.holds("ROLE", x, owner, what)
 
 
-def check_pv(ctx, rep):
+def check_pv(ctx, rep, rid="PV", only=None):
     prog, eff = ctx.prog, ctx.eff
     builders = {
         "Legalizer::fromIspdCircuit": None, "DensityGrid::fromIspdCircuit": None, "Circuit::computeRowPlacementArea": None,
     }
     fl = [prog.func1(CQ + q) for q in builders] + list(prog.func(CQ + "DetailedPlacement::fromIspdCircuit"))
+    if only is not None:
+        fl = [f for f in fl if f.short in only]
     for f in fl:
         calls = [x for x in walk(f.body) if x.get("kind") == "CXXMemberCallExpr" and callee_info(x)["qname"] == CQ + "Circuit::computeRows"]
         raw = [x for x in walk(f.body) if x.get("kind") == "CXXMemberCallExpr" and callee_info(x)["qname"] == CQ + "Circuit::rows"]
         s = eff.summary(f)
         rawf = s["reads"].get(CQ + "Circuit::rows_", [])
         if calls and not raw and not rawf:
-            rep.holds("PV", calls[0], f, "%s takes its rows from computeRows(...)" % f.short)
+            rep.holds(rid, calls[0], f, "%s takes its rows from computeRows(...)" % f.short)
         else:
-            rep.violation("PV", (raw or [f.decl])[0], f, "%s does not (only) use the obstruction-free rows" % f.short,
+            rep.violation(rid, (raw or [f.decl])[0], f, "%s does not (only) use the obstruction-free rows" % f.short,
                           "computeRows calls: %d, raw rows()/rows_ reads: %d" % (len(calls), len(raw) + len(rawf)),
                           key="%s|uses raw rows" % f.short)
+    if only is not None:
+        return
     # who reads rows_ / rows()
     for f in prog.funcs.values():
         s = eff.summary(f)
@@ -405,6 +412,6 @@ def check_pv(ctx, rep):
             continue
         if f.short in ROWS_READERS or f.unit.name.endswith("export.cpp"):
             continue
-        rep.violation("PV", (rcalls or [reads[0][0]])[0], f, "%s reads the raw rows" % f.short,
+        rep.violation(rid, (rcalls or [reads[0][0]])[0], f, "%s reads the raw rows" % f.short,
                       "raw rows include the space under fixed obstructions; only %s may read them" % sorted(ROWS_READERS),
                       key="%s|reads raw rows" % f.short)
